@@ -1,8 +1,8 @@
-\* C39 quick: transition cover for the Cardano depth 6: every key period;
+\* C39 quick: transition cover for depths 4, 5 and the Cardano depth 6: every key period;
 \* verify periods are the neighbour sample (extremes, t-1, t, t+1, 2^d,
 \* 2^d+t, -1 and every period one bit away from t)
 CONSTANTS
-  Depths = {6}
+  Depths = {4, 5, 6}
   FullDepth = 3
   Msgs = {"m1", "m2"}
   DeepMsgs = {"m1"}
